@@ -4,6 +4,7 @@ package indexes
 
 import (
 	"bytes"
+	"errors"
 
 	"github.com/gagliardetto/solana-go"
 	"github.com/ipfs/go-cid"
@@ -36,6 +37,9 @@ func c01Model_DBLookup(db *compactindexsized.DB, key []byte) ([]byte, error) {
 		if len(kv.key) == len(key) && bytes.Equal(kv.key, key) {
 			return append([]byte{}, kv.value...), nil
 		}
+	}
+	if compactindexsized.ErrNotFound == nil {
+		compactindexsized.ErrNotFound = errors.New("not found") // library global (package is not a source root)
 	}
 	return nil, compactindexsized.ErrNotFound
 }
